@@ -57,7 +57,7 @@ pub open spec fn consts_match<B: BlockProvider, N: NotificationService, P: Payme
       && !old(w).lock_held && !old(w).rpc_under_lock && !old(w).attempted
 //@ requires#consts
       consts_match(*old(w), trampoline, *params)
-//@ ensures#answered_exactly_once [C06]
+//@ ensures#answered_exactly_once [C06,C09,C07]
       final(w).released && final(w).resolved is Some
 //@ ensures#inv [C08]
       inv(*final(w))
